@@ -484,7 +484,9 @@ ThrCatch == Running /\ st.c.k = "thr" /\ HasF /\ F.f = "try" /\
                         !.k = Push(Pop(st.k), [f |-> "try", hs |-> <<>>, fin |-> F.fin, env |-> F.env])])
 (* an exception that nobody handles: the run-time system names it and the program fails *)
 ThrTop == Running /\ st.c.k = "thr" /\ ~HasF /\
-  Go([st EXCEPT !.o = st.o \o <<"Unhandled Exception: ", st.c.exn, "\n">>, !.status = "uncaught"])
+  \* an exception that carries values is reported with "(??)" after its name (the run-time system does not print them)
+  Go([st EXCEPT !.o = st.o \o <<"Unhandled Exception: ", st.c.exn, IF Len(st.c.vs) > 0 THEN "(??)" ELSE "", "\n">>,
+                !.status = "uncaught"])
 
 ---------------------------------------------------------------------------
 (* file level: forms are executed in order                                     *)
